@@ -25,6 +25,20 @@ Oracle = the removal activities A_i(0) and half-lives T_i come from the oracle's
                both RuntimeError, or times equal to 1e-6 relative (or, where t is ill-conditioned
                because the target is within 1e-9 of A0, activities S(t) equal to 1e-10 relative).
                Only outcomes that passed (1)-(4) are compared (nothing is explored beyond a violation).
+HISTORIES of several Sample objects in one process (reused / duplicated objects): after one Sample was created
+         from the formula string, every sequence of events up to the depth bound over at most three objects -
+         new Sample (from the string, or from ONE Formula object shared by all such samples), copy.copy(i),
+         copy.deepcopy(i), activate(i, A | B) (two parameter sets that differ in mass, environment, exposure and
+         rest times; the list of B does not contain 0; the mass is assigned to the public attribute), ask(i)
+         (decay_time for every target multiplier) - followed by ask(i) of one object.  Oracle (6): the answer
+         equals the answer of a FRESH Sample that was given the object's own last activation only (same
+         comparison as (5)).  An answer is claimed for an object that was activated itself and for a deep copy
+         of such an object; what a shallow copy answers before it is activated itself is not claimed.  A
+         deviation is named after the activation it is the right answer for and the relation of the two objects:
+         "decay_time-answers-for-the-activation-of-another-sample:<shallow-copy | deep-copy | separately-created-
+         sample>", "decay_time-answers-for-an-earlier-activation-of-the-sample", otherwise
+         "decay_time-differs-from-fresh-sample:<after-an-earlier-decay_time-question | sample-activated-more-than-once | another-sample-was-activated:
+         <relation> | one-sample-activated>"; no history that extends a violating one is explored.
 Signatures name the CAUSE.  The verdict never depends on the attribution; the attribution uses the
 input class and read-only cause probes:
   * "information lost" (class Lost): the activities the Sample holds at its smallest rest time To,
@@ -91,6 +105,17 @@ LISTS = ((0,), (0, 1, 24, 360), (360, 24, 1, 0), (1,), (1, 24), (2,), (5, 0), (0
          # the same Sample object activated a second time (state left over from the first calculation)
          ReRest((0, 3)), ReRest((4,)), ReRest((24, 0.75)))
 EDGES = (705.0, 730.0)      # lambda*To of the shortest-lived product for the two per-configuration lists
+# histories of several Sample objects (see "histories" below): two parameter sets that differ in everything
+HIST_PARAMS = dict(
+    A=(10.0, (1e5, 70.0, 50.0), 10.0, (0, 1, 24, 360)),        # mass, (fluence, Cd ratio, fast ratio), exposure, rest
+    B=(1e-3, (1e12, 1.0, 10.0), 0.1, (24, 0.75)),              # the rest-time list of B does not contain 0
+)
+HIST_MULTS = (1e-3, 0.5, 2.0)       # targets as multiples of the activity at removal the object has to answer for
+HIST = dict(
+    quick=dict(formulas=("Co30Fe70", "NaCl"), depth=4, objects=3, flavours=("str", "obj")),
+    thorough=dict(formulas=("Co30Fe70", "NaCl", "Eu", "Cu[63]0.5Cu0.5"), depth=5, objects=3, flavours=("str", "obj")),
+)
+HIST_SHARD_PREFIX = 2
 MULTS = (1e-9, 1e-8, 1e-7, 1e-6, 1e-5, 1e-4, 1e-3, 1e-2, 0.1, 0.3, 0.5, 0.6, 0.75, 0.9, 0.99, 0.999,
          1 - 1e-6, 1 - 1e-9, 1.0, 1 + 1e-9, 1 + 1e-6, 1.01, 1.5, 2.0, 5.0, 10.0)
 
@@ -105,15 +130,24 @@ META = dict(
           "two per-configuration lists at the back-extrapolation break points lambda*To = 705 and 730 of the "
           "shortest-lived product) x every target multiplier of the activity at removal is executed through "
           "Sample.calculate_activation + Sample.decay_time on a fresh Sample; a case is non-trivial when the "
-          "activity at removal is above the target, so that a positive time has to be solved for"),
+          "activity at removal is above the target, so that a positive time has to be solved for; "
+          "histories: every sequence of events {new Sample from the string / from one shared Formula object, copy.copy, "
+          "copy.deepcopy, activate with parameter set A or B, ask} over at most three Sample objects up to the depth "
+          "bound, followed by a question to one object whose answer is claimed, is executed from scratch and compared "
+          "with a fresh Sample given that object's last activation; a history is non-trivial when two objects were "
+          "activated and not all activations used the same parameter set"),
     bound=dict(
         quick="10 samples (Co30Fe70, Au, NaCl, Eu, Co, SiO2, Hf, Lu2O3, Cu[63]0.5Cu0.5, Co[59]Co - the last two name an isotope and its natural element) x 4 masses x 3 environments x 3 exposures = 360 "
               "configurations x (20 + 2) rest-time lists (3 of them on a Sample object that was activated before) x 26 target multipliers (1e-9 .. 10 times the activity at "
               "removal, with 1-1e-9, 1, 1+1e-9); + 110 collision samples (19 row pairs, 15 nuclides) x mass 1 g x 3 "
-              "environments x 3 exposures = 990 configurations x the same lists and multipliers",
+              "environments x 3 exposures = 990 configurations x the same lists and multipliers; "
+              "histories: 2 formulas (Co30Fe70, NaCl) x all 6960 (event sequence of length <= 4 after the first Sample, "
+              "object asked) over <= 3 objects x 3 target multipliers (1e-3, 0.5, 2)",
         thorough="15 samples (quick + In, Ag, CdTe, B4C, Li[6]0.3Li0.7F) x 4 masses x 3 environments x 3 exposures = 432 "
                  "configurations x (20 + 2) rest-time lists (3 of them on a Sample object that was activated before) x 26 target multipliers (contains the quick grid); "
-                 "+ 110 collision samples x masses {1e-3, 1} g x 3 environments x 3 exposures = 1980 configurations"),
+                 "+ 110 collision samples x masses {1e-3, 1} g x 3 environments x 3 exposures = 1980 configurations; "
+                 "histories: 4 formulas (Co30Fe70, NaCl, Eu, Cu[63]0.5Cu0.5) x all 72630 (event sequence of length <= 5, "
+                 "object asked) over <= 3 objects x 3 target multipliers"),
     assumptions=[
         "the activities at removal and the half-lives are those served by calculate_activation(rest_times=[0]) "
         "and ActivationResult.Thalf_hrs of the tree under test (their correctness is property C14)",
@@ -129,8 +163,13 @@ META = dict(
         "two rows of activation.dat that name the same nuclide with different half-lives are two products, each "
         "decaying with its own tabulated half-life (the property text: 'each decaying with its own half-life'; the "
         "library keys its results by table row)",
-        "decay_time only reads the Sample: the activities and rest times a caller can read from it are the same "
-        "before and after",
+        "decay_time only reads the Sample: the activities and rest times a caller can read from it (and from every "
+        "other Sample alive) are the same before and after",
+        "each Sample object answers for its own last activation: a Sample may be duplicated with copy.copy / "
+        "copy.deepcopy, several Samples may share one Formula object, mass is a public attribute a caller may assign "
+        "before calculate_activation (as after construction); a deep copy of an activated Sample is an activated "
+        "Sample; what a shallow copy answers BEFORE it is activated itself is outside the alphabet (it shares its "
+        "tables with its source), as is asking a Sample that was never activated",
     ],
     level_text=("bounded-exhaustive execution of the real decay_time on every grid point; each returned time is "
                 "checked against the decay sum recomputed from independently obtained removal activities, and "
@@ -620,8 +659,381 @@ def check_config(acc, act, cfg, lists, mults, edges=True, report=None, pair=None
     return P
 
 
+# --------------------------------------------------------------------------------------- histories of Sample objects
+# Several Sample objects live in one process: created from the formula string or from one shared Formula object,
+# duplicated with copy.copy / copy.deepcopy, activated with parameter set A or B (mass, environment, exposure,
+# rest times all differ), asked for decay times - in every order up to the depth bound.  Every answer must be the
+# answer of a FRESH Sample that was given the object's own last activation only.
+def history_params(name):
+    mass, envt, exposure, rest = HIST_PARAMS[name]
+    return mass, tuple(envt), exposure, tuple(rest)
+
+
+class Model(object):
+    """What the history says about each object: the activation it has to answer for, whether an answer is
+    claimed at all, and where the object came from (for naming)."""
+    def __init__(self):
+        self.params, self.askable, self.parent = [], [], []
+        self.held = []      # naming only: every activation the object was ever in the state of (own or inherited)
+
+    def clone(self):
+        m = Model()
+        m.params, m.askable, m.parent = list(self.params), list(self.askable), list(self.parent)
+        m.held = [list(h) for h in self.held]
+        return m
+
+    def apply(self, ev):
+        if ev[0] == "new":
+            self.params.append(None)
+            self.askable.append(False)
+            self.parent.append(None)
+            self.held.append([])
+        elif ev[0] in ("copy", "deepcopy"):
+            src = ev[1]
+            self.params.append(self.params[src])
+            # a deep copy of an activated sample is an independent activated sample; what a SHALLOW copy that
+            # was not activated itself answers is not claimed (it shares its tables with its source)
+            self.askable.append(ev[0] == "deepcopy" and self.askable[src])
+            self.parent.append((src, ev[0]))
+            self.held.append(list(self.held[src]))
+        elif ev[0] == "act":
+            self.params[ev[1]] = ev[2]
+            self.askable[ev[1]] = True
+            self.held[ev[1]].append(ev[2])
+
+    def events(self, max_objects, flavours):
+        k = len(self.params)
+        out = []
+        if k < max_objects:
+            out += [("new", f) for f in flavours]
+            out += [(how, i) for i in range(k) for how in ("copy", "deepcopy")]
+        out += [("act", i, name) for i in range(k) for name in sorted(HIST_PARAMS)]
+        out += [("ask", i) for i in range(k) if self.askable[i]]
+        return out
+
+    def relation(self, i, j):
+        """How object j is related to object i (naming only)."""
+        def chain(x):
+            path = {x: set()}
+            kinds = set()
+            while self.parent[x] is not None:
+                kinds = kinds | {self.parent[x][1]}
+                x = self.parent[x][0]
+                path[x] = set(kinds)
+            return path
+        ci, cj = chain(i), chain(j)
+        common = [x for x in ci if x in cj]
+        if not common:
+            return "separately-created-sample"
+        x = max(common)     # the nearest common ancestor (copies have larger indices than their sources)
+        return "deep-copy" if "deepcopy" in (ci[x] | cj[x]) else "shallow-copy"
+
+
+def enumerate_histories(depth, max_objects, flavours, first=None):
+    """Every (event sequence after the first 'new', object asked) with at most `depth` events; `first` restricts
+    to sequences starting with these events (disjoint shards)."""
+    out = []
+
+    def walk(model, seq):
+        for i in range(len(model.params)):
+            if model.askable[i]:
+                out.append((tuple(seq), i))
+        if len(seq) >= depth:
+            return
+        for ev in model.events(max_objects, flavours):
+            if first is not None and len(seq) < len(first) and ev != first[len(seq)]:
+                continue
+            m = model.clone()
+            m.apply(ev)
+            walk(m, seq + [ev])
+
+    m0 = Model()
+    m0.apply(("new", "str"))
+    if first is not None and len(first) > depth:
+        return out
+    walk(m0, [])
+    if first is not None:
+        out = [h for h in out if h[0][:len(first)] == tuple(first)]
+    return out
+
+
+def history_prefixes(depth, max_objects, flavours, n):
+    """All event sequences of length n after the first 'new' (shard keys; none if the depth is smaller)."""
+    keys = []
+    if n > depth:
+        return keys
+
+    def walk(model, seq):
+        if len(seq) == n:
+            keys.append(tuple(seq))
+            return
+        for ev in model.events(max_objects, flavours):
+            m = model.clone()
+            m.apply(ev)
+            walk(m, seq + [ev])
+
+    m0 = Model()
+    m0.apply(("new", "str"))
+    walk(m0, [])
+    return keys
+
+
+def run_history(act, formula, events, on_ask=None):
+    """Execute the events on the real library.  Returns the list of Sample objects."""
+    import copy
+    pt = load_pt()
+    objs, shared = [], [None]
+    for n, ev in enumerate(events):
+        if ev[0] == "new":
+            if ev[1] == "obj":
+                if shared[0] is None:
+                    shared[0] = pt.formula(formula)
+                objs.append(act.Sample(shared[0], history_params("A")[0]))
+            else:
+                objs.append(act.Sample(formula, history_params("A")[0]))
+        elif ev[0] == "copy":
+            objs.append(copy.copy(objs[ev[1]]))
+        elif ev[0] == "deepcopy":
+            objs.append(copy.deepcopy(objs[ev[1]]))
+        elif ev[0] == "act":
+            mass, envt, exposure, rest = history_params(ev[2])
+            s = objs[ev[1]]
+            if s.mass != mass:
+                s.mass = mass       # the caller changes the public attribute before the calculation
+            env = act.ActivationEnvironment(fluence=envt[0], Cd_ratio=envt[1], fast_ratio=envt[2])
+            s.calculate_activation(env, exposure=exposure, rest_times=list(rest))
+        elif ev[0] == "ask":
+            on_ask(n, ev[1], objs)
+        else:
+            raise MachineryError("unknown event %r" % (ev,))
+    return objs
+
+
+def history_snippet(formula, events, asked, mult):
+    L = ["import copy, math", "import periodictable as pt", "from periodictable import activation as act",
+         "E = act.ActivationEnvironment"]
+    for name in sorted(HIST_PARAMS):
+        mass, envt, exposure, rest = history_params(name)
+        L.append("%s = dict(mass=%r, env=dict(fluence=%r, Cd_ratio=%r, fast_ratio=%r), exposure=%r, rest_times=%r)"
+                 % (name, mass, envt[0], envt[1], envt[2], exposure, list(rest)))
+    L += ["def activate(s, P):",
+          "    s.mass = P['mass']",
+          "    s.calculate_activation(E(**P['env']), exposure=P['exposure'], rest_times=list(P['rest_times']))",
+          "    return s",
+          "def removal_activity(P):",
+          "    ref = activate(act.Sample(%r, 1.0), dict(P, rest_times=[0]))" % formula,
+          "    return math.fsum(v[0] for v in ref.activity.values())",
+          "def answer(s, target):",
+          "    try:",
+          "        return s.decay_time(target)",
+          "    except RuntimeError:",
+          "        return 'RuntimeError'",
+          "f = pt.formula(%r)" % formula]
+    k = 0
+    model = Model()
+    for ev in events:
+        if ev[0] == "new":
+            L.append("s%d = act.Sample(%s, %r)" % (k, "f" if ev[1] == "obj" else repr(formula), history_params("A")[0]))
+            k += 1
+        elif ev[0] in ("copy", "deepcopy"):
+            L.append("s%d = copy.%s(s%d)" % (k, ev[0], ev[1]))
+            k += 1
+        elif ev[0] == "act":
+            L.append("activate(s%d, %s)" % (ev[1], ev[2]))
+        elif ev[0] == "ask":
+            L.append("for m in %r: answer(s%d, m*removal_activity(%s))" % (list(HIST_MULTS), ev[1], model.params[ev[1]]))
+        model.apply(ev)
+    P = model.params[asked]
+    L += ["target = %r*removal_activity(%s)" % (mult, P),
+          "got = answer(s%d, target)" % asked,
+          "fresh = answer(activate(act.Sample(%r, 1.0), %s), target)" % (formula, P),
+          "print('history:', got, ' fresh sample with the same last activation:', fresh)",
+          "assert got == fresh or ('RuntimeError' not in (got, fresh) and abs(got - fresh) <= 1e-6*max(got, fresh))"]
+    return "\n".join(L) + "\n"
+
+
+class Fresh(object):
+    """Per worker: removal activities and the answers of fresh samples, per (formula, parameter set)."""
+    def __init__(self, act):
+        self.act, self.P, self.out = act, {}, {}
+
+    def products(self, formula, name):
+        key = (formula, name)
+        if key not in self.P:
+            mass, envt, exposure, rest = history_params(name)
+            P = Products(self.act, formula, mass, envt, exposure)
+            self.P[key] = P if (P.physical and P.A0 > 0) else None
+        return self.P[key]
+
+    def answer(self, formula, name, target):
+        key = (formula, name, target)
+        if key not in self.out:
+            mass, envt, exposure, rest = history_params(name)
+            self.out[key] = call(activate(self.act, formula, mass, envt, exposure, rest), target)
+        return self.out[key]
+
+
+def held_all(objs):
+    return [held_by(s) for s in objs]
+
+
+def check_history(acc, act, fresh, formula, seq, asked, mults=None):
+    """One history: the first 'new', the events of seq, then object `asked` is asked for every multiplier.
+    Returns True if it violates."""
+    events = (("new", "str"),) + tuple(tuple(ev) for ev in seq)
+    model = Model()
+    for ev in events:
+        model.apply(ev)
+    name = model.params[asked]
+    P = fresh.products(formula, name)
+    if P is None:
+        acc.count("histories_outside_the_alphabet_no_activation")
+        return False
+    other = [n for n in sorted(HIST_PARAMS) if n != name][0]
+
+    def on_ask(n, i, objs):
+        # an intermediate question: every multiplier of the activity at removal the object has to answer for
+        Pi = fresh.products(formula, Model_at(events, n).params[i])
+        if Pi is not None:
+            for m in HIST_MULTS:
+                call(objs[i], Pi.A0 * m)
+                acc.evaluations += 1
+
+    acc.states += 1
+    acc.evaluations += sum(1 for ev in events if ev[0] == "act")
+    acts = [ev for ev in events if ev[0] == "act"]
+    if len(set(ev[1] for ev in acts)) > 1 and len(set(ev[2] for ev in acts)) > 1:
+        acc.nontrivial += 1         # two objects were activated, and not all with the same parameters
+    try:
+        objs = run_history(act, formula, events, on_ask)
+    except Exception as e:      # noqa
+        case = dict(kind="history", formula=formula, events=[list(ev) for ev in seq], ask=asked, mult=HIST_MULTS[0])
+        acc.violation("sample-history-raises-%s" % type(e).__name__, case, expected="samples that can be activated",
+                      observed="%s: %s" % (type(e).__name__, str(e)[:160]),
+                      standalone=history_snippet(formula, events, asked, HIST_MULTS[0]))
+        return True
+    before = held_all(objs)
+    for mult in (HIST_MULTS if mults is None else mults):
+        target = P.A0 * mult
+        want = fresh.answer(formula, name, target)
+        if judge(P, target, want) is not None:
+            acc.count("history_answers_not_judged_fresh_sample_violates")    # reported by the grid
+            continue
+        out = call(objs[asked], target)
+        acc.evaluations += 1
+        acc.transitions += 1
+        if same_answer(P, target, want, out):
+            acc.outcome("history | %s | equal-to-fresh-sample" % ("returns-time" if out[0] == "time" and out[1] != 0
+                                                                   else "returns-0" if out[0] == "time" else "raises"))
+            continue
+        # cause (naming only): is it the answer for the OTHER parameter set, and who was activated with it last?
+        # `since`: the event that put the asked object into the state it has to answer for (its last activation,
+        # or the copy that created it); `later`: another object activated with the other set after that
+        since = max(n for n, ev in enumerate(events)
+                    if (ev[0] == "act" and ev[1] == asked) or n == creation_index(events, asked))
+        later = next((ev[1] for ev in reversed(events[since + 1:])
+                      if ev[0] == "act" and ev[2] == other and ev[1] != asked), None)
+        who = later if later is not None else next((ev[1] for ev in reversed(events)
+                                                    if ev[0] == "act" and ev[2] == other), None)
+        Po = fresh.products(formula, other)
+        explained = (who is not None and Po is not None and out[0] == want[0] == "time"
+                     and same_answer(Po, target, fresh.answer(formula, other, target), out))
+        last_other = next((ev[1] for ev in reversed(events) if ev[0] == "act" and ev[1] != asked), None)
+        if explained and later is None and other in model.held[asked]:
+            # the object itself was in that state before: activated with it, or copied from a sample that was
+            sig = "decay_time-answers-for-an-earlier-activation-of-the-sample"
+        elif explained:
+            sig = "decay_time-answers-for-the-activation-of-another-sample:" + model.relation(asked, who)
+        elif question_probe(act, formula, events, asked, target, P, want):
+            # counterfactual probe (naming only): without the earlier questions the same history answers like the
+            # fresh sample, so what an earlier decay_time call left behind is the cause
+            sig = "decay_time-differs-from-fresh-sample:after-an-earlier-decay_time-question"
+        elif len(model.held[asked]) > 1:
+            # input class: the object (or the sample it was copied from) went through more than one activation
+            sig = "decay_time-differs-from-fresh-sample:sample-activated-more-than-once"
+        elif last_other is not None:
+            sig = "decay_time-differs-from-fresh-sample:another-sample-was-activated:" + model.relation(asked, last_other)
+        else:
+            sig = "decay_time-differs-from-fresh-sample:one-sample-activated"
+        case = dict(kind="history", formula=formula, events=[list(ev) for ev in seq], ask=asked, mult=mult)
+        acc.outcome("history | VIOLATES")
+        acc.violation(sig, case, expected="%s, as a fresh sample given the activation %s only" % (show(want), name),
+                      observed=show(out), standalone=history_snippet(formula, events, asked, mult),
+                      detail=dict(parameters=dict((n, list(history_params(n))) for n in sorted(HIST_PARAMS)),
+                                  A0=P.A0, target=target))
+        return True
+    after = held_all(objs)
+    for i, (b, a) in enumerate(zip(before, after)):
+        if a != b:
+            case = dict(kind="history", formula=formula, events=[list(ev) for ev in seq], ask=asked, mult=HIST_MULTS[-1])
+            acc.violation("decay_time-alters-the-sample" if i == asked else "decay_time-alters-another-sample", case,
+                          expected="activities and rest times held by every Sample are the same before and after "
+                                   "decay_time", observed="sample %d: %r -> %r" % (i, b, a),
+                          standalone=history_snippet(formula, events, asked, HIST_MULTS[-1]))
+            return True
+    return False
+
+
+def question_probe(act, formula, events, asked, target, P, want):
+    """Cause probe (naming only): the history without any earlier decay_time call gives the fresh sample's answer."""
+    try:
+        objs = run_history(act, formula, [ev for ev in events if ev[0] != "ask"])
+        return same_answer(P, target, want, call(objs[asked], target))
+    except Exception:       # noqa
+        return False
+
+
+def creation_index(events, i):
+    """Index of the event that created object i."""
+    k = -1
+    for n, ev in enumerate(events):
+        if ev[0] in ("new", "copy", "deepcopy"):
+            k += 1
+            if k == i:
+                return n
+    raise MachineryError("object %d is never created" % i)
+
+
+def Model_at(events, n):
+    m = Model()
+    for ev in events[:n]:
+        m.apply(ev)
+    return m
+
+
+def _hist_shard(job):
+    """firsts = None: the histories shorter than the shard prefix; else: all histories that start with one of them."""
+    _, tier, formula, firsts = job
+    act = lib()
+    acc = Acc()
+    fresh = Fresh(act)
+    h = HIST[tier]
+    if firsts is None:
+        todo = enumerate_histories(min(HIST_SHARD_PREFIX, h["depth"] + 1) - 1, h["objects"], h["flavours"])
+    else:
+        todo = []
+        for first in firsts:
+            todo += enumerate_histories(h["depth"], h["objects"], h["flavours"],
+                                        first=tuple(tuple(ev) for ev in first))
+    broken = set()      # nothing is explored beyond a violating state: no history that extends a violating one
+    for seq, asked in todo:
+        if any(seq[:n] in broken for n in range(len(seq) + 1)):
+            acc.count("sample_histories_not_explored_beyond_a_violation")
+            continue
+        if check_history(acc, act, fresh, formula, seq, asked):
+            broken.add(seq)
+        acc.count("sample_histories")
+    if todo and firsts is not None:
+        seq, asked = todo[len(todo) // 2]
+        acc.sample(dict(history_of_samples=dict(formula=formula, events=[["new", "str"]] + [list(ev) for ev in seq],
+                                                asked=asked, multipliers=list(HIST_MULTS))))
+    return acc
+
+
 # --------------------------------------------------------------------------------------- shards
 def _shard(job):
+    if job[0] == "history":
+        return _hist_shard(job)
     tier, cfgs = job
     act = lib()
     acc = Acc()
@@ -653,9 +1065,19 @@ def run(ctx):
             cfgs = [(formula, mass, envt, exposure) for envt in ENVS for exposure in EXPOSURES]
             n_collide += len(cfgs)
             jobs.append((tier, cfgs))
+    h = HIST[tier]
+    keys = history_prefixes(h["depth"], h["objects"], h["flavours"], HIST_SHARD_PREFIX)
+    for formula in rotate(h["formulas"], ctx.seed):
+        jobs.append(("history", tier, formula, None))
+        per = 2 if ctx.quick else 1
+        for i in range(0, len(keys), per):
+            jobs.append(("history", tier, formula, [list(map(list, k)) for k in keys[i:i + per]]))
     ctx.pmap(_shard, jobs)
     acc = ctx.acc
     acc.traces = acc.transitions
+    acc.info["history_depth"] = h["depth"]
+    acc.info["history_formulas"] = list(h["formulas"])
+    acc.info["history_parameter_sets"] = dict((n, list(history_params(n))) for n in sorted(HIST_PARAMS))
     acc.info["configurations"] = len(SAMPLES[tier]) * len(MASSES) * len(ENVS) * len(EXPOSURES) + n_collide
     acc.info["collision_nuclides"] = nuclides
     acc.info["collision_row_pairs"] = pairs
@@ -672,6 +1094,10 @@ def replay(ctx, case, signature=None):
     """The recorded list (and the recorded base list) at the recorded multiplier; the list [0] is run as
     well because the attribution of a cause uses it as the control."""
     act = lib()
+    if case.get("kind") == "history":
+        check_history(ctx.acc, act, Fresh(act), case["formula"], [tuple(ev) for ev in case["events"]], case["ask"],
+                      mults=(case["mult"],))
+        return
     cfg = (case["formula"], case["mass"], (case["fluence"], case["Cd_ratio"], case["fast_ratio"]), case["exposure"])
     rest = (ReRest if case.get("reactivated") else tuple)(case["rest_times"])
     base = (ReRest if case.get("base_reactivated") else tuple)(case["base_rest_times"]) \
